@@ -3,6 +3,30 @@ import json, os
 VERIF = os.path.dirname(os.path.dirname(os.path.abspath(__file__)))
 
 CLAIMED = {
+    "C01": ("Lean 4 theorems (the pipeline model is exactly the documented composition: matched/unmatched/semantic wiring, candidates = overlapping pairs scored on the voxel sets, greedy best-first assignment, tp = passing matched labels, one list entry per TP; stage theorems C02-C09 apply to its output) + correspondence + independent implementation of the published definitions",
+            "The end-to-end model is proved to be the composition of the verified stages; the real evaluator is compared on generated and exhaustively enumerated inputs, for the three input types, IoU/Dice/ASSD matching, decision metrics and both backends, with the model and with an independent implementation of the definitions whenever they determine the answer uniquely.",
+            "Trusted: Lean kernel + 3 standard axioms; harness; ASSD order in float64 (near-ties skipped and counted); cc3d/scipy/EDT compared against proved definitions; crops are not part of the model (C10 crop lemma + correspondence).",
+            "DESIGN.md §7 C01"),
+    "C15": ("Lean 4 theorems (heap machine over arbitrary operation sequences: configuration and advertised keys of every evaluator invariant, evaluate determined by configuration and input, well-formedness of every reachable world) + correspondence + purity oracles on the real objects",
+            "Along every sequence of evaluator/aggregator constructions, key reads, saves and evaluate calls with any options, the model's evaluators keep their configuration and advertised keys and evaluate returns the value determined by configuration and input. Real operation sequences are checked after every step: caller arrays byte-identical, result equal to a fresh evaluator's, keys and saved YAML unchanged; serial vs real multiprocessing pool compared on a slice.",
+            "Trusted: Lean kernel + 3 standard axioms; harness; array immutability and starmap = map are assumptions of the model, observed on the implementation.",
+            "DESIGN.md §7 C15"),
+    "C16": ("Lean 4 theorems (two-lock machine, every schedule, any number of threads: 18-clause invariant, rows unique, lock exclusion, partial row only under the lock, statistics see complete rows, final rows, progress measure, no deadlock, can finish) + step-by-step correspondence of the real aggregator under a controlled scheduler + forked-process runs",
+            "For every schedule of any number of evaluate()/make_statistic() calls with distinct or colliding names the machine ends with exactly one complete row per subject, never deadlocks and can always finish; the real Panoptica_Aggregator, with its locks and file helpers wrapped from outside, is driven through random and enumerated schedules and compared with the machine after every step (files, lock owners, program counters) and with a sequential run at the end; forked worker processes are run with a widened claim window.",
+            "Trusted: Lean kernel + 3 standard axioms; harness and scheduler; preemption inside one helper call, buffered-write splitting of rows > 8 KiB and process start-up are outside the model; forked-process runs are sampled, not enumerated.",
+            "DESIGN.md §7 C16"),
+    "C17": ("Lean 4 theorems (constructor + sessions + crash transitions: file well-formedness along every history, rows never lost, constructor completion, restart exactness, private buffer names) + step-by-step correspondence with crash injection + sibling-file runs",
+            "Along every history of sessions, constructor steps, thread steps and crashes the output file stays well formed; after any history a complete session leaves the header once and exactly one row per subject with earlier rows kept; buffer file names are injective in the output name. The real aggregator is driven through every crash point of a one-subject session x 5 initial file states and through random multi-session histories, compared with the machine after every operation and with an uninterrupted run at the end; sibling output files in one directory are exercised.",
+            "Trusted: Lean kernel + 3 standard axioms; harness and crash injector (a crash abandons parked threads and frees the model-level locks); kills inside a single write call and atexit ordering are outside the model.",
+            "DESIGN.md §7 C17"),
+    "C18": ("Lean 4 theorems (header cell splits back at the last '-', key list round trip, alignment of every (subject, group, metric) value, classification of non-finite values, row width) + end-to-end correspondence evaluator -> aggregator -> loader",
+            "For any groups, subjects, '-'-free metric keys and result values the loaded table returns under (s, g, m) exactly the classification of the written value; the real evaluator/aggregator/loader chain is run on generated group and subject names and forced NaN/inf/None values and compared bit-for-bit with to_dict and with the model.",
+            "Trusted: Lean kernel + 3 standard axioms; harness; csv quoting and float<->text are external (compared).",
+            "DESIGN.md §7 C18"),
+    "C20": ("Lean 4 theorems (summary ignores missing entries, permutation invariance, avg/variance/min/max definitions, across-groups = statistics of per-group averages, per-subject lookup) + correspondence on generated result tables",
+            "Summaries are proved to be functions of the multiset of finite entries with the stated definitions; Panoptica_Statistic is compared with the model and with numpy on generated tables incl. nan/inf/-inf/empty cells and permuted rows, with look-ups before and after summaries.",
+            "Trusted: Lean kernel + 3 standard axioms; harness; avg/std compared within 1e-9 (float accumulation), min/max exact.",
+            "DESIGN.md §7 C20"),
     "C05": ("Lean 4 theorems (closure by saturation = reachability, component numbering invariant: total, same-label iff connected, labels exactly 1..n; backend adjacencies) + correspondence with cc3d/scipy + independent flood-fill oracle",
             "For every finite voxel set and symmetric adjacency the model's labelling gives two voxels the same label exactly when they are connected, uses labels 1..n and reports n; cc3d adjacency never joins different semantic labels, scipy adjacency is face-only, the default backend is chosen by dimensionality. The model is compared with ConnectedComponentsInstanceApproximator (both backends and default) on generated and exhaustively enumerated semantic maps.",
             "Trusted: Lean kernel + 3 standard axioms; harness; cc3d and scipy.ndimage.label are C extensions compared against the proved definition, not verified.",
@@ -58,6 +82,7 @@ CLAIMED = {
             "DESIGN.md §7 C06"),
 }
 
+NA = {}
 PENDING_REASON = "machinery for this property is not yet built in this round (model exists or is planned per DESIGN.md §12); it is not claimed until its theorems and correspondence run"
 
 def main():
